@@ -37,7 +37,14 @@ func init() {
 			"mailboxes (incl. a pair sharing the file store's lock bucket) over six configurations (mem plain, cap, maxkb, cap+maxkb; file plain, cap), " +
 			"GOMAXPROCS 2/4/16, seeded yields and sleeps injected at the verif hook points; every call recorded at the client boundary on a logical clock " +
 			"and checked with porcupine against the ordered-mailbox model, partitioned by mailbox; (b) directed schedules that pause an AddMessage between " +
-			"'visible' and 'registered with the size enforcer' (or a VisitMailboxes between directory levels) while another goroutine removes, purges or adds. " +
+			"'visible' and 'registered with the size enforcer' (or a VisitMailboxes between directory levels) while another goroutine removes, purges or adds; " +
+			"(c) delivery storms judged on completion and final invariants; (d) damaged: a file store in which 1-2 mailboxes' index files are damaged behind the store's back " +
+			"(zero length, truncated, random bytes, garbage tail; before and/or during the concurrent phase) and keep being operated on (any outcome accepted) while 6-12 " +
+			"clients read, list and deliver to 3-6 healthy mailboxes with truly overlapping cold index reads: every operation on a healthy mailbox must succeed, return only " +
+			"that mailbox's messages and be linearizable; (e) churn: 2-5 goroutines, each the only user of its own mailbox, cycle neighbouring mailboxes (same level-1 " +
+			"directory with different / equal 4th hash digit, same level-2 directory, the lock-bucket pair, an outsider) through deliver -> read back -> empty " +
+			"(remove, purge, cap-1 eviction) on file and memory stores, optionally under a visiting goroutine: every operation succeeds and every result is " +
+			"exactly what the owner's own sequence determines. " +
 			"A history is non-trivial when it contains at least one pair of overlapping operations on the same mailbox; distinct by (config, multiset of " +
 			"overlapping operation-kind pairs).",
 		Assumptions: []string{
@@ -48,7 +55,14 @@ func init() {
 		},
 		MinObs: func(tier string) map[string]int64 {
 			return map[string]int64{"storms": 30, "histories": 100, "overlapping_pairs": 2000, "porcupine_ok": 100, "directed_schedules": 8,
-				"hook_hits_mem.add.visible": 50, "hook_hits_file.fs": 50, "hook_hits_file.visit.level": 20}
+				"hook_hits_mem.add.visible": 50, "hook_hits_file.fs": 50, "hook_hits_file.visit.level": 20,
+				// stream "damaged" (after C09-8): faults injected, operations that met the damage, healthy
+				// operations after the first failure, healthy reads that overlapped another client's read
+				"damaged_cases": 60, "damaged_faults": 60, "damaged_box_errors": 500, "damaged_healthy_ops_after_fault": 2000,
+				"damaged_overlapping_reads": 2000,
+				// stream "churn": create/empty cycles of neighbouring mailboxes; how often an emptying
+				// overlapped another mailbox's first delivery
+				"churn_cases": 30, "churn_rounds": 3000, "churn_empties": 3000, "churn_empty_overlaps_first_delivery": 2000}
 		},
 		Run: run,
 	})
@@ -511,6 +525,11 @@ func run(c *fw.Ctx) {
 	c.Cases("stress", n, func(i int, r *fw.Rand) { stress(c, i, r) })
 	c.Cases("directed", c.N(48, 480), func(i int, r *fw.Rand) { directed(c, i, r) })
 	c.Cases("storm", c.N(120, 1800), func(i int, r *fw.Rand) { storm(c, i, r) })
+	// Added after seeded change C09-8: concurrent traffic next to mailboxes whose index is damaged
+	// behind the store's back (see damaged.go).
+	c.Cases("damaged", c.N(96, 1600), func(i int, r *fw.Rand) { damaged(c, i, r) })
+	// Create/empty cycles of neighbouring mailboxes, one owner each (see churn.go).
+	c.Cases("churn", c.N(48, 960), func(i int, r *fw.Rand) { churn(c, i, r) })
 	verifhook.Set(nil)
 }
 
